@@ -12,6 +12,7 @@ import Proofs.NetworkNFT
 import Proofs.NetworkMulti
 import Proofs.Unified
 import Proofs.Accept
+import Proofs.Accept3
 import Proofs.Ledger
 import Proofs.Hex
 namespace C01
@@ -356,5 +357,42 @@ theorem conservation_in_mixed_world (e : Env) : ∀ (steps : List UStep) (w : UW
       rw [issued_neutral e w st (hn st (by simp)), ih _ (fun s hs => hn s (by simp [hs]))]
       rfl
   rw [h, hz steps w hn]; omega
+
+/-- the conditions a REFUND of a multi transfer leaves to check, per item at the state it meets: the payload decodes (NFT
+    items), the origin's slot is empty or decodes, what the origin kept carries the payload's hash, the merged quantity is
+    positive and fits. Gates and payability are not consulted: the call is flagged return-after-error and is a callback. -/
+theorem refund_gate (A : Accts) (a k : Bytes) (t : Token) : GatePasses A a k t true := Or.inl rfl
+
+/-- FULL ("a refund is never rejected", MultiESDTNFTTransfer; total correctness): the refund of a refused multi-transfer
+    message — the library's own destination-side call with the message's transfer arguments (count, then three per item),
+    call type callback, return-after-error flag, executed on the origin shard — SUCCEEDS and leaves exactly the storage the
+    items state, whenever every item is accepted at the state it meets (`DestItemsOK`, Proofs/Accept3.lean: with the
+    refund's flags that is — the payload decodes to an entry with metadata, the origin's slot is empty or decodes (C15),
+    what the origin kept carries the payload's hash (C08), returned + kept is positive and fits; for a fungible item: the
+    origin's slot is a well-formed fungible entry). Any number of items, repeated and mixed items included (each item is
+    judged at the state the earlier items of the same call left). -/
+theorem multi_refund_never_rejected (env : Env) (c : Call) (ctx : Ctx) (cnt : Bytes)
+    (hct : c.callType = 2) (h0 : c.args[0]? = some cnt) (hval : c.callValue = 0) (hne : c.caller ≠ c.rcv)
+    (hsnd : present env.nshards env.self c.caller = false) (hdst : present env.nshards env.self c.rcv = true)
+    (hnf : ctx.failAt = none)
+    (n : Nat) (hn : n = u64 (beNat cnt)) (hn0 : n ≠ 0) (hfit : 3 * n + 1 ≤ c.args.length) (hphys : c.args.length < two64)
+    (A' : Accts) (hitems : DestItemsOK env c false n 1 ctx.accts A') :
+    ∃ out ctx', multiTransfer env c ctx = .ok (out, ctx') ∧ out.rc = 0 ∧ ctx'.accts = A' := by
+  have hmv : mustVerifyPayable c (3 * n + 1) = false := by simp [mustVerifyPayable, hct]
+  exact multiTransfer_delivery_accepted env c ctx cnt h0 hval hne hsnd hdst hnf n hn hn0 hfit hphys A' (by rw [hmv]; exact hitems)
+
+/-- non-vacuity, kernel-evaluated: the refund of a two-item message (5 units of a fungible token, then 2 more of the same)
+    on an origin that holds nothing: both items are accepted — the second at the state the first left — and the origin
+    holds 7 -/
+def mrTok : Bytes := [84, 75]
+def mrAlice : Bytes := List.replicate 32 2
+def mrBob : Bytes := List.replicate 32 3
+def mrEnv : Env := { self := 0, nshards := 2, payable := fun _ => .yes, dns := [], nameChange := false, gas := {}, active := true }
+def mrCall : Call :=
+  { fn := fnMultiESDTNFTTransfer, caller := mrBob, rcv := mrAlice, callType := 2, rae := true,
+    args := [[2], mrTok, [], [5], mrTok, [], [2]] }
+example : (match multiTransfer mrEnv mrCall { accts := [] } with
+    | .ok (out, c') => out.rc == 0 && balOf (c'.accts.read mrAlice (esdtKeyPrefix ++ mrTok)) == 7
+    | _ => false) = true := by decide +kernel
 
 end C01
